@@ -59,6 +59,8 @@ class QueueModel:
             return ANY
         if op == "count":
             return ("ret", sum(1 for x in d if x == arg))
+        if op in ("pin", "syncf"):      # rewrite the durable copy from memory / re-read memory from it: content unchanged
+            return ANY
         raise AssertionError(op)
 
 
@@ -104,6 +106,8 @@ class OSetQueueModel:
             return ("absent",)          # False or KeyError are both documented somewhere: state unchanged is what counts
         if op == "clear":
             s.clear()
+            return ANY
+        if op in ("pin", "syncf"):
             return ANY
         raise AssertionError(op)
 
@@ -313,6 +317,14 @@ def foreign_inside_ion_range(env, sdb, key, sep=b"."):
                 if split_iokey(k, sep)[0] != key:
                     found.append(k)
     return found
+
+
+def iokey_in_range(other, key, sep=b"."):
+    """can a hidden key of `other` sort inside the ordinal range [key.000..0, key.fff..f] of `key`?  (the recorded
+    key-encoding weakness of C24: such sibling keys are kept out of C23's workloads)"""
+    lo = key + sep + b"0" * 32
+    hi = key + sep + b"f" * 32
+    return other != key and any(lo <= other + sep + t * 32 <= hi for t in (b"0", b"f"))
 
 
 def parse_dom(raw):
